@@ -312,24 +312,64 @@ def section_of(m, off):
     return 'footer'
 
 
-def eval_image(img, opener, calls, truth, m):
-    """Returns list of (call, partial outcome, truth outcome, first short request section)."""
+MODES = ['fresh', 'fresh', 'session', 'stale', 'fresh', 'session']
+
+
+def eval_image(img, opener, calls, truth, m, mode='fresh', sibling=None):
+    """Returns list of (call, partial outcome, truth outcome, first short request section).
+
+    mode 'fresh'  : a fresh process and a fresh reader per call;
+         'session': one reader object for the whole battery (what a later call returns after an earlier one was
+                    refused is judged too);
+         'stale'  : the same process has, just before, opened and read another *complete* file with the same geometry
+                    at the same path (which the partial file then replaced: new inode, new modification time); fresh
+                    reader per call, process-wide state of the library kept."""
     fs = storage.SimFS()
     fs.add_file(readers.FPATH, img)
     kind = readers.OPENERS[opener]['kind']
     bad = []
     n = [0]
+    if mode == 'stale' and sibling is None:
+        mode = 'fresh'
 
     def fn():
-        for call in calls:
-            if not readers.applicable(kind, call):
-                continue
-            fs.reqlog.clear()
-            got = readers.fresh_outcome(fs, opener, call)
+        obj = None
+        opened = None
+        if mode == 'stale':
+            readers.clear_caches()
+            fs.replace_content(readers.FPATH, sibling)
+            for call in calls:
+                if readers.applicable(kind, call):
+                    readers.fresh_outcome(fs, opener, call, clear=False)
+            fs.replace_content(readers.FPATH, img)
+        elif mode == 'session':
+            readers.clear_caches()
+            try:
+                obj = readers.open_obj(fs, opener)
+            except (core.SimAbort, core.HarnessError):
+                raise
+            except Exception as e:
+                opened = ('exc', type(e).__name__)
+        try:
+            for call in calls:
+                if not readers.applicable(kind, call):
+                    continue
+                fs.reqlog.clear()
+                if mode == 'session':
+                    got = opened if obj is None else battery.outcome(lambda: battery.apply_call(obj, call))
+                else:
+                    got = readers.fresh_outcome(fs, opener, call, clear=(mode == 'fresh'))
+                judge(call, got)
+        finally:
+            if obj is not None:
+                readers.close_obj(obj)
+
+    def judge(call, got):
+        if True:
             n[0] += 1
             want = truth[(kind, repr(call))]
             if battery.acceptable(got, want):
-                continue
+                return
             sec = 'none'
             for (_, _, _, off, req, ret, _) in fs.reqlog:
                 if ret < req:
@@ -358,8 +398,8 @@ def calls_for(m, rng, n_extra):
     return calls
 
 
-def signature(m, call, sec, got):
-    return f"{m['layout']}|{m['kind']}|{call[0]}|short-read-in-{sec}|returned"
+def signature(m, call, sec, got, mode='fresh'):
+    return f"{m['layout']}|{m['kind']}|{call[0]}|short-read-in-{sec}|returned" + ('' if mode == 'fresh' else '|' + mode)
 
 
 def one_item(ctx, item):
@@ -409,23 +449,36 @@ def one_item(ctx, item):
             streams.append(_tagged(more, f'{pol}:{j}'))
     sig_seen = set()
     import itertools
+    sibling = filelib.make_sibling(final, m)
+    mrng = core.stream(seed, item['id'], 'modes')
+    rec['modes'] = collections.Counter()
     for i, (desc, img) in enumerate(itertools.chain(*streams)):
         opener = OPENER_CYCLE[(i + item['id']) % len(OPENER_CYCLE)]
         if opener == 'xarray' and (m['is_2d'] or not readers.HAVE_XARRAY):
             opener = 'path'
-        common.mark({'image': desc, 'opener': opener})
-        bad, n = eval_image(img, opener, calls, truth, m)
+        mode = mrng.choice(MODES)
+        if mode == 'stale' and sibling is None:
+            mode = 'fresh'
+        common.mark({'image': desc, 'opener': opener, 'mode': mode})
+        bad, n = eval_image(img, opener, calls, truth, m, mode, sibling)
         rec['images'] += 1
         rec['pairs'] += n
         rec['img_kinds'][desc[0].split('@')[0]] += 1
         rec['openers'][opener] += 1
+        rec['modes'][mode] += 1
         for call, got, want, sec in bad:
-            sig = signature(m, call, sec, got)
+            sig = signature(m, call, sec, got, mode)
             if sig in sig_seen and len(rec['violations']) > 40:
                 continue
             sig_seen.add(sig)
-            rec['violations'].append({'signature': sig, 'image': desc, 'opener': opener, 'call': call,
-                                      'got': repr(got)[:200], 'want': repr(want)[:200], 'size': len(img)})
+            v = {'signature': sig, 'image': desc, 'opener': opener, 'call': call, 'mode': mode,
+                 'got': repr(got)[:200], 'want': repr(want)[:200], 'size': len(img)}
+            if mode != 'fresh':
+                kind = readers.OPENERS[opener]['kind']
+                app = [c for c in calls if readers.applicable(kind, c)]
+                v['calls_before'] = app[:app.index(call)]
+            rec['violations'].append(v)
+    rec['modes'] = dict(rec['modes'])
     rec['img_kinds'] = dict(rec['img_kinds'])
     rec['openers'] = dict(rec['openers'])
     return rec
@@ -452,12 +505,19 @@ def replay_doc(doc, scratch):
     kind = readers.OPENERS[doc['opener']]['kind']
     truth = readers.truth_table(final, {kind: [call]})
     img = rebuild_image(oslog, final, doc['image'])
-    bad, _ = eval_image(img, doc['opener'], [call], truth, m)
+    mode = doc.get('mode', 'fresh')
+    calls = [call]
+    if mode != 'fresh':
+        # the earlier calls of the battery are part of the history: the recorded list up to the failing call
+        calls = [c for c in doc.get('calls_before', [])] + [call]
+        truth = readers.truth_table(final, {kind: calls})
+    bad, _ = eval_image(img, doc['opener'], calls, truth, m, mode, filelib.make_sibling(final, m))
+    bad = [b for b in bad if b[0] == call]
     if not bad:
         return None, ''
     call, got, want, sec = bad[0]
-    return signature(m, call, sec, got), f'partial file ({doc["image"]}, {len(img)} of {len(final)} bytes) opened via ' \
-        f'{doc["opener"]}: {call} returned {got} but the complete file gives {want}'
+    return signature(m, call, sec, got, mode), f'partial file ({doc["image"]}, {len(img)} of {len(final)} bytes) opened via ' \
+        f'{doc["opener"]} ({mode}): {call} returned {got} but the complete file gives {want}'
 
 
 def _replay_child(doc, scratch, q):
@@ -534,6 +594,7 @@ def _main(tier, seed, scratch, t0):
     images = 0
     img_kinds = collections.Counter()
     openers = collections.Counter()
+    modes = collections.Counter()
     wscheds = collections.Counter()
     layouts = collections.Counter()
     writers = collections.Counter()
@@ -554,6 +615,7 @@ def _main(tier, seed, scratch, t0):
         os_writes += rec.get('os_writes', 0)
         img_kinds.update(rec['img_kinds'])
         openers.update(rec.get('openers', {}))
+        modes.update(rec.get('modes', {}))
         wscheds['writer_runs_with_another_os_write_order'] += rec.get('alt_schedules', 0)
         layouts[rec['layout']] += 1
         writers[rec['w']] += 1
@@ -588,6 +650,7 @@ def _main(tier, seed, scratch, t0):
         else:
             doc = {'property': PID, 'seed': seed, 'signature': sig, 'item': _clean(item), 'image': v['image'],
                    'opener': v['opener'], 'call': v['call'], 'got': v['got'], 'want': v['want'],
+                   'mode': v.get('mode', 'fresh'), 'calls_before': v.get('calls_before', []),
                    'occurrences': len(lst),
                    'what': f"partial file {v['image']} ({v['size']} bytes) via {v['opener']}: {v['call']} returned "
                            f"{v['got'][:80]} instead of raising or {v['want'][:80]}"}
@@ -608,6 +671,10 @@ def _main(tier, seed, scratch, t0):
         'os_level_writes_total': os_writes,
         'crash_image_kinds': dict(img_kinds),
         'images_per_way_of_opening': dict(openers),
+        'images_per_reading_mode': dict(modes),
+        'reading_modes': 'fresh = fresh process and fresh reader per call; session = one reader object for the whole '
+                         'battery; stale = the process has just read a complete same-geometry file at the same path, which '
+                         'the partial file then replaced (new inode and modification time), library state kept',
         'writer_schedules': dict(wscheds),
         'layouts': dict(layouts),
         'exhaustive': False,
